@@ -22,7 +22,8 @@ Logged ==
   /\ canon' = Ev.st.canon
   /\ hb' = Ev.st.hb /\ hh' = Ev.st.hh /\ hs' = Ev.st.hs
   /\ txl' = Ev.st.txl /\ tail' = Ev.st.tail
-  /\ ProjState'.resolve = Ev.st.resolve
+  /\ cache' = Ev.st.resolve
+  /\ ProjState'.dresolve = Ev.st.dresolve
   /\ ProjState'.rresolve = Ev.st.rresolve
   /\ ev' = Ev.st.ev
   /\ res'.err = Ev.st.err
